@@ -83,6 +83,9 @@ def run(ctx):
         prim0 = Opaque('earlier primitive')
         provider.fields['primitive'] = prim0
         provider.fields['dimse_gen'] = None
+        provider.fields['raw_pdu'] = p.fresh_bytes('buffered')
+        sta = p.choose([True] * 13, 'state') + 1
+        provider.fields['state_machine'].fields['current_state'] = States.attrs['STA_%d' % sta]
         item = None
         if what != 'empty':
             kind = T.PDU_KINDS[p.choose([True] * 7, 'user primitive kind')]
@@ -113,6 +116,11 @@ def run(ctx):
         ob = obl(p, label)
         provider, sock = c12.build_provider(it)
         del events_of(provider)[:]
+        # everything else the provider holds is arbitrary (e.g. a partial PDU in the receive buffer)
+        provider.fields['raw_pdu'] = p.fresh_bytes('buffered')
+        provider.fields['primitive'] = Opaque('some earlier primitive')
+        sta = p.choose([True] * 13, 'state') + 1
+        provider.fields['state_machine'].fields['current_state'] = States.attrs['STA_%d' % sta]
         timer = provider.fields['timer']
         running = p.branch(p.fresh('artim_running', smt.Bool))
         if running:
@@ -131,6 +139,11 @@ def run(ctx):
             return
         evs = events_of(provider)
         now = p.ghost.get('clock')
+        if running and now is t0:
+            # the decision was taken without reading the clock although ARTIM is running
+            ob('evt18-iff-artim-running-and-expired', False, why='the clock was not consulted while ARTIM is running')
+            p.outcome = 'normal'
+            return
         expired = (now - t0 > mx) if running else False
         fired = len(evs) == 1 and evs[0] is EV[18] and r is True
         quiet = not evs and r is False
